@@ -6,12 +6,23 @@ import (
 	"fmt"
 	"iter"
 	"math/rand"
+	"sync"
 	"time"
 
 	"github.com/moorara/algo/generic"
 )
 
-var r = rand.New(rand.NewSource(time.Now().UnixNano()))
+var (
+	r   = rand.New(rand.NewSource(time.Now().UnixNano()))
+	rmu sync.Mutex // guards r, which is shared by all instances
+)
+
+// shuffle is a goroutine-safe wrapper around r.Shuffle.
+func shuffle(n int, swap func(i, j int)) {
+	rmu.Lock()
+	defer rmu.Unlock()
+	r.Shuffle(n, swap)
+}
 
 // Set represents a set abstract data type.
 type Set[T any] interface {
@@ -157,7 +168,7 @@ func (s *set[T]) All() iter.Seq[T] {
 
 	// Shuffle the indices list to randomize the order in which members are traversed.
 	// This ensures that the traversal order is non-deterministic, reflecting the unordered nature of set.
-	r.Shuffle(len(indices), func(i, j int) {
+	shuffle(len(indices), func(i, j int) {
 		indices[i], indices[j] = indices[j], indices[i]
 	})
 
